@@ -71,7 +71,7 @@ func collect(p *Prog) *slots {
 func mutate(r *lib.Rng, p *Prog) string {
 	s := collect(p)
 	for try := 0; try < 12; try++ {
-		switch r.Intn(11) {
+		switch r.Intn(13) {
 		case 0: // change / add a let annotation to a related type
 			if len(s.lets) == 0 {
 				continue
@@ -223,6 +223,45 @@ func mutate(r *lib.Rng, p *Prog) string {
 			nb := append([]*Stmt{}, (*b)[:i]...)
 			*b = append(nb, (*b)[i+1:]...)
 			return "drop-stmt"
+		case 11, 12: // wrap the final return of a function into a branch shape (valid or not)
+			var fs []*Fun
+			for _, f := range p.Funs {
+				if n := len(f.Body); n > 0 && f.Body[n-1].Op == "return" && f.Body[n-1].E != nil &&
+					(f.Body[n-1].E.Typ == nil || !f.Body[n-1].E.Typ.isRes()) {
+					fs = append(fs, f)
+				}
+			}
+			if len(fs) == 0 {
+				continue
+			}
+			f := lib.Pick(r, fs)
+			n := len(f.Body)
+			ret := f.Body[n-1]
+			cond := func() *Expr { return &Expr{Op: "bool", B: r.Bool(), Typ: tBool} }
+			retS := func() []*Stmt { return []*Stmt{{Op: "return", E: ret.E}} }
+			pan := []*Stmt{{Op: "expr", E: &Expr{Op: "panic", Typ: tNever}}}
+			var st *Stmt
+			shape := r.Intn(8)
+			switch shape {
+			case 0: // if c { return } else { if d { return } }
+				st = &Stmt{Op: "if", E: cond(), B1: retS(), B2: []*Stmt{{Op: "if", E: cond(), B1: retS()}}}
+			case 1: // if c { return }
+				st = &Stmt{Op: "if", E: cond(), B1: retS()}
+			case 2: // if c { return } else { panic }   (valid)
+				st = &Stmt{Op: "if", E: cond(), B1: retS(), B2: pan}
+			case 3: // if c { if d { return } else { return } } else { return }   (valid)
+				st = &Stmt{Op: "if", E: cond(), B1: []*Stmt{{Op: "if", E: cond(), B1: retS(), B2: retS()}}, B2: retS()}
+			case 4: // if c { if d { return } } else { return }
+				st = &Stmt{Op: "if", E: cond(), B1: []*Stmt{{Op: "if", E: cond(), B1: retS()}}, B2: retS()}
+			case 5: // while c { return }
+				st = &Stmt{Op: "while", E: cond(), B1: retS()}
+			case 6: // if c { return } else { if d { return } else { } }
+				st = &Stmt{Op: "if", E: cond(), B1: retS(), B2: []*Stmt{{Op: "if", E: cond(), B1: retS(), B2: []*Stmt{}}}}
+			default: // if c { panic } else { if d { return } }
+				st = &Stmt{Op: "if", E: cond(), B1: pan, B2: []*Stmt{{Op: "if", E: cond(), B1: retS()}}}
+			}
+			f.Body[n-1] = st
+			return "return-shape"
 		case 9, 10: // use another (earlier declared) variable
 			var cs []**Expr
 			for _, e := range s.exprs {
